@@ -58,11 +58,14 @@ def contract(a, b, mname, gap, terminal, local):
 words = ["".join(w) for n in (1, 2, 3) for w in itertools.product("ACG", repeat=n)]
 if not R.thorough:
     words = words[::3] + ["AAC", "CAA", "ACA"]
+words += ["T", "CT", "TC", "TCT", "CTC", "GAT"]          # (with T: the asymmetric matrix distinguishes C over T from T over C)
 for a, b in itertools.product(words, repeat=2):
     for mname in MATRICES:
         for gap in (-1, -3, (-3, -1)):
             for terminal, local in ((True, False), (False, False), (True, True)):
                 if mname != "+1/-1" and gap == -3 and not R.thorough:
+                    continue
+                if mname == "asymmetric" and not R.thorough and not (set(a + b) & set("TG") and set(a + b) & set("CA")):
                     continue
                 R.check("align_optimal: reported score == maximum over all alignments; returned alignments valid, honestly scored, distinct",
                         f"optimal {'local' if local else ('global' if terminal else 'semi-global')} gap={gap}",
